@@ -11,7 +11,8 @@ import pyside
 import values
 
 LEAN_MODULE = "Kio.Props.C03"
-THEOREMS = ["Kio.C03.accepts_foreign", "Kio.C03.shipped_unknown_tag_witness"]
+THEOREMS = ["Kio.C03.accepts_conforming", "Kio.C03.foreign_is_conforming", "Kio.C03.conforms_examples",
+            "Kio.C03.accepts_foreign", "Kio.C03.shipped_unknown_tag_witness"]
 
 UNKNOWN_TAGS = [5, 17, 99, 127, 128, 300, 16383, 16384, 2**21, 2**35 - 1]
 
